@@ -13,6 +13,9 @@ SHIPPED = ('propositional', 'small_theory', 'substitution')
 def gen_modules(rng, n, depth=3):
     mods = []
     for _ in range(n):
+        if rng.random() < 0.08:
+            mods.append(genpf.shadow_module(rng))
+            continue
         mods.append(genpf.gen_module(rng, rng.choice((1, 2, depth)), subs=rng.choice((0, 0, 1, 2))))
     return mods
 
